@@ -20,6 +20,8 @@ witness under the relaxed exception semantics).  Anything else is a VIOLATION.
 """
 import json, os, sys, glob, collections, itertools
 from harness.lib import oracle as O, cvgen as CG, cvcheck as CK, cvsig as SG, cvgen_alt as CA, gen_reference as G
+from harness.lib import cvgen2 as CG2, cvcheck2 as CK2, cvgen_fus as CF
+import re, time
 
 PROPERTY = 'C03'
 ROOT = os.path.dirname(os.path.dirname(os.path.dirname(os.path.abspath(__file__))))
@@ -30,8 +32,8 @@ F_BUBBLE = 'C03-bubble-omitted-id'
 
 def sizes(ctx):
     if ctx.quick:
-        return dict(core=700, excon=240, flags=120, altpos=130)
-    return dict(core=18000, excon=5000, flags=4000, altpos=4000)
+        return dict(core=700, excon=240, flags=120, altpos=130, framepair=60, stoplost=80, altids_as=110, altids_circ=30, altids_fusion=50)
+    return dict(core=18000, excon=5000, flags=4000, altpos=4000, framepair=2000, stoplost=2500, altids_as=3000, altids_circ=600, altids_fusion=1500)
 
 def gen_cases(ctx):
     rng = ctx.rng
@@ -68,7 +70,110 @@ def gen_cases(ctx):
             run.update(w2f=False, sect=True, extra=['--selenocysteine-termination'])
         c['runs'] = [run]; c['stream'] = 'altpos'
         cases.append(c)
+    for st, gen in (('framepair', CA.gen_framepair_case), ('stoplost', CA.gen_stoplost_case)):
+        # framepair: two indels restoring the frame + records downstream (seeded C03-8); stoplost: stop-lost records of
+        # six shapes + records in the read-through (seeded C03-9)
+        for i in range(n.get(st, 0)):
+            c = gen(rng)
+            run = CG.gen_run(rng, rule='trypsin', exc_on=False)
+            run.update(min_len=rng.choice([4, 5, 7]), max_len=rng.choice([25, 40]))
+            if run['mw4'] > 5000000:
+                run['min_mw'], run['mw4'] = CG.off_grid_mw(rng, bases=(0, 300))
+            c['runs'] = [run]; c['stream'] = st
+            cases.append(c)
     return cases
+
+def gen_alt_backbone_cases(ctx):
+    """alternative-splicing / circRNA / fusion inputs (generators of C01 / C02: harness/lib/cvgen2.py, cvgen_fus.py) for
+    the id check of their headers"""
+    rng = ctx.rng
+    n = sizes(ctx)
+    cases = []
+    for i in range(n.get('altids_as', 0)):
+        x = rng.random()
+        c = CG2.gen_as_case(rng, donor_records=(x < 0.7)) if x < 0.85 else CG2.gen_as_design_case(rng)
+        c['stream'] = 'altids_as'; cases.append(c)
+    for i in range(n.get('altids_circ', 0)):
+        c = CG2.gen_circ_case(rng, nvar=rng.choice([0, 1, 2, 3]))
+        c['stream'] = 'altids_circ'; cases.append(c)
+    for i in range(n.get('altids_fusion', 0)):
+        c = CF.gen_fusion_case2(rng)
+        c['stream'] = 'altids_fusion'; cases.append(c)
+    for c in cases:
+        run = CG.gen_run(rng, rule='trypsin', exc_on=False)
+        run.update(k=rng.choice([0, 1, 1, 2]), skip_oracle=True)
+        c['runs'] = [run]
+    return cases
+
+def input_ids(case):
+    """{backbone or '*': ids} of every record of every input GVF of the case"""
+    by = collections.defaultdict(set)
+    for r in case.get('gvf', []):
+        by[r[5]].add(r[2]); by['*'].add(r[2])
+    for r in case.get('as_records', []):
+        by[r['tx']].add(r['row']['id']); by['*'].add(r['row']['id'])
+    for r in case.get('circ_records', []):
+        by['*'].add(r['row']['id']); by['backbones'].add(r['row']['id'])
+    for f in case.get('fusions', []):
+        by['*'].add(f['id']); by['backbones'].add(f['id'])
+    return by
+
+def judge_ids(evs, violations, stats):
+    """C03 on alternative-splicing / circRNA / fusion backbones, the part that needs no semantics: every entry parses
+    (<backbone>|<id>|...|[ORFn|]<index>), the backbone is a transcript carrying records or the id of a supplied
+    circRNA / fusion record, and every other token is the id of a record of the input GVFs (on a fusion backbone
+    prefixed by the 1-based index of the partner transcript, '2-INDEL-113-G-GTGA'); generated SECT / W2F ids only with
+    their flag.  An id that occurs in no input (seeded C03-7: 'G1-SNV-175-C-G') is a VIOLATION.  Whether the named
+    records are a WITNESS on these backbones is not decided here."""
+    for ev in evs:
+        st = ev.case.get('stream', '?').split(':')[0]
+        stats['runs:' + st] += 1
+        if ev.exc:
+            if CK.is_fusion_crash(ev):
+                stats['known_crash:' + CK.F_FUSCRASH] += 1
+                continue
+            violations.append({'what': 'callVariant aborted with %s (%s)' % (ev.exc['__exc__'], ev.exc.get('msg', '')[:120]),
+                               'replay_obj': CK.replay_obj(ev, 'header-ids'), 'no_input': False})
+            continue
+        ids = input_ids(ev.case)
+        txs = set(t['id'] for g in ev.case['world']['genes'] for t in g['transcripts'])
+        bad = collections.defaultdict(list)
+        entries = []
+        for seq, ents in ev.got.items():
+            for e in ents:
+                entries.append(e)
+                stats['entries'] += 1; stats['id_checked'] += 1
+                f = e.split('|')
+                if len(f) < 2 or not f[-1].isdigit():
+                    bad['grammar'].append((seq, e)); continue
+                bb, toks = f[0], f[1:-1]
+                fusion = bb.startswith('FUSION-')
+                if bb not in txs and bb not in ids['backbones']:
+                    bad['backbone-is-no-input-record'].append((seq, e)); continue
+                if bb in txs and not ids.get(bb):
+                    bad['backbone-without-records'].append((seq, e)); continue
+                stats['backbone:%s' % ('fusion' if fusion else 'circ' if bb.startswith('CIRC-') else 'tx')] += 1
+                for t in toks:
+                    if re.fullmatch(r'ORF\d+', t):
+                        continue
+                    if re.fullmatch(r'(SECT|W2F)-\d+', t):
+                        if not ev.run.get('sect' if t[0] == 'S' else 'w2f'):
+                            bad['alt-id-without-flag'].append((seq, e))
+                        continue
+                    t0 = re.sub(r'^\d+-', '', t) if fusion else t
+                    pool = ids[bb] if bb in txs else ids['*']
+                    if t0 not in pool:
+                        bad['id-not-in-any-input-gvf' if t0 not in ids['*'] else 'id-of-another-transcript'].append((seq, e)); break
+                    stats['ids_named:%s' % t0.split('-')[0].split('_')[0]] += 1
+        if entries:
+            stats['nontrivial'] += 1
+        if len(set(entries)) != len(entries):
+            dup = [e for e, k in collections.Counter(entries).items() if k > 1]
+            bad['duplicate-entry'].append(('', dup[0]))
+        for kind, lst in bad.items():
+            stats['bad:%s' % kind] += len(lst)
+            violations.append({'what': 'header entry %r of peptide %s: %s (%d such in this run; %s)' % (lst[0][1], lst[0][0], kind, len(lst), ev.case.get('stream')),
+                               'replay_obj': CK.replay_obj(ev, 'header-ids', {'entries': [list(x) for x in lst[:10]], 'kind': kind}), 'no_input': False})
 
 def sect_positions(case, tx_id):
     """{n: transcript position of the Sec codon} for the ids SECT-n the backbone can carry: n = 1-based GENE
@@ -100,8 +205,14 @@ def corpus_cases():
         c = o['case']
         c['stream'] = 'corpus:' + os.path.basename(f)
         c['repeat'] = o.get('repeat', 1)
+        if o.get('expect_entries'):
+            c['expect_entries'] = o['expect_entries']
         out.append(c)
     return out
+
+def _noidx(entry):
+    f = entry.split('|')
+    return '|'.join(f[:-1]) if f and f[-1].isdigit() else entry
 
 def gvf_ids(case):
     d = collections.defaultdict(set)
@@ -403,6 +514,15 @@ def judge(evs, violations, stats):
                             stats['geom:sect_entry_peptide_keeps_an_earlier_U'] += 1
                     continue
                 items.append((seq, e, h['tx'], sorted(set(idx))))
+        # POSITIVE regression cases (corpus): truthful entries the unchanged tool prints for this input must still be
+        # there.  Used where a seeded change has the same per-entry symptom as an open finding (C03-8 vs the
+        # pair-half-named shape of D12, C03-9 vs C03-stoploss-header): the signature cannot tell them apart, the
+        # disappearance of a known-good label can.  Entries are compared without their running index.
+        for seq, ent in ev.case.get('expect_entries', []):
+            have = set(_noidx(e) for e in ev.got.get(seq, []))
+            stats['expected_entries_checked'] += 1
+            if _noidx(ent) not in have:
+                bad['expected-truthful-entry-missing'].append((seq, '%s (now: %s)' % (ent, ' '.join(sorted(have)) or 'peptide absent')))
         if entries:
             stats['nontrivial'] += 1
         if len(set(entries)) != len(entries) or not O.call('cv_entries_unique', entries):
@@ -465,6 +585,14 @@ def run(ctx):
         violations = uniq
     cases = gen_cases(ctx)
     stream_wall = CK.run_streams(ctx, cases, judge, violations, stats, want_may=False, tag='c03')
+    alt_cases = gen_alt_backbone_cases(ctx)
+    groups = collections.OrderedDict()
+    for c in alt_cases:
+        groups.setdefault(c['stream'], []).append(c)
+    for st, cs in groups.items():
+        t0 = time.time()
+        judge_ids(CK2.run_batch(ctx, cs, want_may=False, tag='c03a'), violations, stats)
+        stream_wall[st] = round(time.time() - t0, 1)
     keep, cnt = [], collections.Counter()
     for v in violations:
         if v.get('finding'):
@@ -472,7 +600,7 @@ def run(ctx):
             if cnt[v['finding']] > 40:
                 continue
         keep.append(v)
-    CK.annotate_stability(ctx, keep, judge, want_may=False)
+    CK.annotate_stability(ctx, [v for v in keep if v.get('replay_obj', {}).get('what') != 'header-ids'], judge, want_may=False)
     samples = [dict(CK.strip_case(c), world='<omitted>') for c in cases[:3]]
     return dict(evaluations=stats['witness_checked'], distinct_nontrivial=stats['nontrivial'],
                 rule='one evaluation = one (peptide, header entry) pair checked with the proved decider witness_ok (entries with generated SECT / W2F identifiers: witness_ok_pos, position exact); '
@@ -490,6 +618,17 @@ def replay(ctx, obj):
     c['stream'] = obj.get('what', 'replay')
     n = int(obj.get('repeat', 4))
     stats = collections.Counter(); violations = []
+    if obj.get('what') == 'header-ids':
+        for r in c['runs']:
+            r['skip_oracle'] = True
+        judge_ids(CK2.run_batch(ctx, [json.loads(json.dumps(c)) for _ in range(min(n, 2))], want_may=False, tag='c03r'), violations, stats)
+        seen = set(); out = []
+        for v in violations:
+            if v['what'] not in seen:
+                seen.add(v['what']); out.append(v)
+        return dict(violations=out)
+    if obj.get('expect_entries'):
+        c['expect_entries'] = obj['expect_entries']
     judge(CK.run_batch(ctx, [json.loads(json.dumps(c)) for _ in range(n)], want_may=False, tag='c03r'), violations, stats)
     seen = set(); out = []
     for v in violations:
